@@ -1,6 +1,173 @@
 package main
 
-// runAudit is the sensitivity audit of the thorough tier (DESIGN.md section 7).
+import (
+	"encoding/json"
+	"fmt"
+	"os"
+	"os/exec"
+	"path/filepath"
+	"sort"
+	"strings"
+	"sync"
+)
+
+// Mutant is one single-edit variant of /repo used by the sensitivity audit: a textual
+// replacement in one file, loaded through packages.Config.Overlay (in memory; /repo is not
+// touched). A mutant whose anchor text no longer occurs is skipped and reported.
+type Mutant struct {
+	ID       string `json:"id"`
+	Property string `json:"property"`
+	File     string `json:"file"`
+	Old      string `json:"old"`
+	New      string `json:"new"`
+	Why      string `json:"why"`
+	// Equivalent marks a behaviour-preserving edit: the rules must stay silent on it.
+	Equivalent bool `json:"equivalent,omitempty"`
+}
+
+type mutantResult struct {
+	ID       string   `json:"id"`
+	Why      string   `json:"why"`
+	Status   string   `json:"status"` // killed | survived | skipped | silent(ok) | false-alarm | error
+	Reported []string `json:"reported,omitempty"`
+}
+
+func loadMutants(vdir string) ([]Mutant, error) {
+	var all []Mutant
+	files, _ := filepath.Glob(filepath.Join(vdir, "audit", "*.json"))
+	sort.Strings(files)
+	for _, f := range files {
+		b, err := os.ReadFile(f)
+		if err != nil {
+			return nil, err
+		}
+		var ms []Mutant
+		if err := json.Unmarshal(b, &ms); err != nil {
+			return nil, fmt.Errorf("%s: %w", f, err)
+		}
+		all = append(all, ms...)
+	}
+	return all, nil
+}
+
+// runAudit is the sensitivity audit of the thorough tier (DESIGN.md section 7): it measures
+// that the property's obligations are live (every seeded single-edit break is reported) and
+// exact (every seeded behaviour-preserving edit is not). It never changes the verdict on /repo.
 func runAudit(def *PropDef, repo, vdir string, seed int64) map[string]interface{} {
-	return nil
+	muts, err := loadMutants(vdir)
+	if err != nil {
+		return map[string]interface{}{"error": err.Error()}
+	}
+	var mine []Mutant
+	for _, m := range muts {
+		if m.Property == def.ID {
+			mine = append(mine, m)
+		}
+	}
+	if len(mine) == 0 {
+		return nil
+	}
+	// VERIF_SEED rotates the order (all variants are always run)
+	if n := len(mine); n > 0 && seed != 0 {
+		k := int(((seed % int64(n)) + int64(n)) % int64(n))
+		mine = append(mine[k:], mine[:k]...)
+	}
+	exe, _ := os.Executable()
+	results := make([]mutantResult, len(mine))
+	sem := make(chan struct{}, 6)
+	var wg sync.WaitGroup
+	for i, m := range mine {
+		wg.Add(1)
+		go func(i int, m Mutant) {
+			defer wg.Done()
+			sem <- struct{}{}
+			defer func() { <-sem }()
+			results[i] = runMutant(exe, def, repo, vdir, m)
+		}(i, m)
+	}
+	wg.Wait()
+	sort.Slice(results, func(i, j int) bool { return results[i].ID < results[j].ID })
+	counts := map[string]int{}
+	var problems []mutantResult
+	for _, r := range results {
+		counts[r.Status]++
+		if r.Status == "survived" || r.Status == "false-alarm" || r.Status == "error" {
+			problems = append(problems, r)
+		}
+	}
+	return map[string]interface{}{
+		"variants": len(results), "status_counts": counts, "results": results, "survivors_and_false_alarms": problems,
+		"note": "variants are single textual edits of /repo's current files loaded through an in-memory overlay; killed = the property's rules reported a violation on the variant; silent(ok) = a behaviour-preserving variant on which the rules stayed silent",
+	}
+}
+
+func runMutant(exe string, def *PropDef, repo, vdir string, m Mutant) mutantResult {
+	res := mutantResult{ID: m.ID, Why: m.Why}
+	path := filepath.Join(repo, m.File)
+	src, err := os.ReadFile(path)
+	if err != nil || !strings.Contains(string(src), m.Old) {
+		res.Status = "skipped"
+		res.Reported = []string{"anchor text not found in " + m.File + " (the construct was refactored): variant not applicable"}
+		return res
+	}
+	mutated := strings.Replace(string(src), m.Old, m.New, 1)
+	ovf, _ := os.CreateTemp("", "prunnerlint-overlay-*.json")
+	defer os.Remove(ovf.Name())
+	b, _ := json.Marshal(map[string]string{path: mutated})
+	ovf.Write(b)
+	ovf.Close()
+	out, _ := os.CreateTemp("", "prunnerlint-obs-*.json")
+	out.Close()
+	defer os.Remove(out.Name())
+	c := exec.Command(exe, "-property", def.ID, "-repo", repo, "-verif", vdir, "-overlay", ovf.Name(), "-obs-out", out.Name())
+	if o, err := c.CombinedOutput(); err != nil {
+		res.Status = "error"
+		res.Reported = []string{err.Error() + ": " + string(o)}
+		return res
+	}
+	ob, _ := os.ReadFile(out.Name())
+	var v struct {
+		Obs   []Ob   `json:"obs"`
+		Error string `json:"error"`
+	}
+	if err := json.Unmarshal(ob, &v); err != nil {
+		res.Status = "error"
+		res.Reported = []string{err.Error()}
+		return res
+	}
+	if v.Error != "" {
+		// a variant that does not type-check is not a valid variant
+		res.Status = "skipped"
+		res.Reported = []string{"variant does not load/type-check: " + firstLine(v.Error)}
+		if strings.Contains(v.Error, "checker panic") {
+			res.Status = "error"
+		}
+		return res
+	}
+	for _, o := range v.Obs {
+		if o.Verdict == "violation" || o.Verdict == "undecided" {
+			res.Reported = append(res.Reported, o.Rule+" @ "+o.Construct)
+		}
+	}
+	switch {
+	case m.Equivalent && len(res.Reported) == 0:
+		res.Status = "silent(ok)"
+	case m.Equivalent:
+		res.Status = "false-alarm"
+	case len(res.Reported) > 0:
+		res.Status = "killed"
+	default:
+		res.Status = "survived"
+	}
+	if len(res.Reported) > 6 {
+		res.Reported = append(res.Reported[:6], fmt.Sprintf("… and %d more", len(res.Reported)-6))
+	}
+	return res
+}
+
+func firstLine(s string) string {
+	if i := strings.IndexByte(s, '\n'); i >= 0 {
+		return s[:i]
+	}
+	return s
 }
